@@ -65,7 +65,7 @@ def build(ctx):
                        "filesystem::create_directories may report any non-zero error_code; destructors and operator delete do nothing; error_category::message returns an empty string; "
                        "throw_error<...> = format (skipped) + throw sbe_error; exception propagation modelled by a flag + unwinding edges of invoke/landingpad",
                        "main.cpp's single catch(sbe_error) -> diagnostic + exit status 1 is read, not encoded"]
-    for std in (("17",) if ctx.quick else ("17", "20")):
+    for std in ("17",):   # sbeppc is a C++17 program (its throw_error does not compile under C++20 fmt consteval checks)
         u = ctx.lower("c20", CPP, std=std, mode="unchecked", exceptions=True, extra=["-I" + P.REPO + "/sbeppc/src", "-I" + P.FMT_PREFIX + "/include"],
                       allow_opaque=True, inline_all=False, extern_map={"__stub_funcs__": {"throw_error": "env_throw_error"}})
         body = r"""
